@@ -1141,6 +1141,74 @@ def split_ranges(total, batch):
     return [(lo, min(total, lo + batch)) for lo in range(0, total, batch)]
 
 
+def call_history_task(lin_ok):
+    """Pool call histories on ONE operator with the SAME list objects mutated in place between calls (reverse, replace the
+    contents by other elements of the same number, rotate): every call must equal the entry-wise single evaluations of the
+    list AS IT IS at call time.  One window around the whole history, so pools that the code keeps alive stay alive."""
+    from mc import universe as U_
+    import src.initial_mesh as IM_
+    from src.initial_potential import InitialOperator
+    from src.single_layer import SingleLayerOperator
+    ctl = vpool.install()
+    out = {'n': 0, 'viols': []}
+    m = U_.level_mesh('UnitSquare', (0., 1.), 1, 1)
+    els = list(m.leaf_elements)
+    ops = [None, 'reverse', 'replace', 'rotate', 'swap-ends']
+
+    def mutate(L, op, pool_):
+        if op == 'reverse':
+            L.reverse()
+        elif op == 'replace':
+            L[:] = pool_[len(pool_) - len(L):]
+        elif op == 'rotate':
+            L[:] = L[1:] + L[:1]
+        elif op == 'swap-ends':
+            L[0], L[-1] = L[-1], L[0]
+
+    with ctl.window():
+        if lin_ok:
+            M0 = InitialOperator(m, lambda xy: np.sin(xy[0]) * xy[1] + 1.0, initial_mesh=IM_.UnitSquareBoundaryRefined)
+            single = {id(e): M0.linform(e)[0] for e in els}
+            for cpu in (1, 2):
+                ctl.configure(cpu=cpu, assign=None)
+                L = list(els[:6])
+                for op in ops:
+                    mutate(L, op, els)
+                    out['n'] += 1
+                    try:
+                        vec = np.asarray(M0.linform_vector(elems=L, use_mp=True))
+                        want = np.array([single[id(e)] for e in L])
+                        bad = None if np.array_equal(vec, want) else '{} of {} entries differ from the single evaluations'.format(int(np.sum(vec != want)) if vec.shape == want.shape else 'all', len(L))
+                    except Exception as ex:  # noqa
+                        bad = 'raised {!r}'.format(ex)
+                    if bad and len(out['viols']) < 3:
+                        out['viols'].append(({'clause': 'call-history', 'fn': 'linform_vector'},
+                                             'linform_vector(use_mp=True, cpu={}) after the in-place list mutation {!r} on the same operator and list object: {}'.format(cpu, op, bad),
+                                             {'kind': 'call-history', 'fn': 'linform_vector'}))
+        SL = SingleLayerOperator(m)
+        ref = SingleLayerOperator(m)
+        for cpu in (1, 3):
+            ctl.configure(cpu=cpu, assign=None)
+            T = list(els[:10])
+            S = list(els[6:16])
+            for op in ops:
+                mutate(S, op, els)
+                if op in ('rotate', 'swap-ends'):
+                    mutate(T, op, els)
+                out['n'] += 1
+                try:
+                    A = SL.bilform_matrix(T, S, use_mp=True)
+                    want = np.array([[ref.bilform(tr, te) for tr in S] for te in T], dtype=float)
+                    bad = None if (A.shape == want.shape and np.array_equal(A, want)) else 'matrix differs from the entry-wise single evaluations of the current lists'
+                except Exception as ex:  # noqa
+                    bad = 'raised {!r}'.format(ex)
+                if bad and len(out['viols']) < 6:
+                    out['viols'].append(({'clause': 'call-history', 'fn': 'bilform_matrix'},
+                                         'bilform_matrix(use_mp=True, cpu={}) after the in-place list mutation {!r} on the same operator and list objects: {}'.format(cpu, op, bad),
+                                         {'kind': 'call-history', 'fn': 'bilform_matrix'}))
+    return out
+
+
 def run(ctx):
     P = PARAMS[ctx.tier]
     notes = {}
@@ -1238,6 +1306,11 @@ def run(ctx):
         w[1] += r['wall']
         w[2] = max(w[2], r['wall'])
     ctx.note('cpu-seconds per item type (items, total, longest): {}'.format({k: (v[0], round(v[1]), round(v[2], 1)) for k, v in walls.items()}))
+    # ---- pool call histories with in-place mutated lists (one fresh process)
+    hres = common.pmap_fresh(call_history_task, [not lin_broken], 1)[0]
+    for key, what, rep in hres['viols']:
+        ctx.violation(key, what, rep)
+    ctx.note('pool call histories with in-place mutated lists: {} calls'.format(hres['n']))
     # ---- aggregate
     agg = {}
     samples = []
@@ -1353,7 +1426,7 @@ def run(ctx):
         ctx.note('uncontrolled genuine multiprocessing pools were created by the code under test: {}'.format(acct['uncontrolled']))
     prefixes = sum(v for k, v in scopes.items())
     cov = {
-        'evaluations': int(evaluations),
+        'evaluations': int(evaluations) + hres['n'], 'pool_call_history_calls': hres['n'],
         'distinct_nontrivial': int(distinct),
         'rule': 'evaluations = calls into bilform_matrix / linform_vector / estimate_* plus history transitions, each compared bitwise '
                 'with single evaluations on fresh operators. distinct_nontrivial counts distinct (function, shape, cpu, schedule, list '
@@ -1493,6 +1566,11 @@ def replay(ctx, data):
     clause = data.get('clause')
     print('replaying C17 case: clause={} fn={}'.format(clause, data.get('fn')))
     problems = []
+    if data.get('kind') == 'call-history':
+        r = call_history_task(not linform_status())
+        for key, what, rep in r['viols']:
+            print('  ', what)
+        return not r['viols']
     if clause in ('paths', 'schedule'):
         fn = data.get('fn', 'bilform_matrix')
         call = {'bilform_matrix': bilform_call, 'linform_vector': linform_call}.get(fn, est_call)
